@@ -121,7 +121,7 @@ let run_xlsx = function
     let wev = xlsx_wb_events c wb in
     String.concat "|" [ wire rev; wire wev; show_outcome (xlsx_open rev wev);
                         show_parsed wb.wb_sheets wb.wb_names wb.wb_1904;
-                        opt_n (known_xlsx c wb); b01 (xlsx_legal c wb) ]
+                        "-"; b01 (xlsx_legal c wb) ]
   | _ -> "bad-args"
 
 (* ---------- xlsb ---------- *)
@@ -191,7 +191,7 @@ let run_xls = function
     let st = bytes_of_hex (hex_of_bytes (xls_stream c wb)) in
     String.concat "|" [ hex_of_bytes st; show_outcome (xls_parse_workbook st);
                         show_parsed wb.wb_sheets (spec_names_xls c wb) wb.wb_1904;
-                        opt_n (known_xls c wb); b01 (xls_legal c wb) ]
+                        "-"; b01 (xls_legal c wb) ]
   | _ -> "bad-args"
 
 (* ---------- ods ---------- *)
@@ -220,7 +220,7 @@ let run_ods = function
     let ev = ods_events c wb in
     String.concat "|" [ wire ev; show_outcome (ods_parse_content ev);
                         show_parsed wb.wb_sheets wb.wb_names false;
-                        opt_n (known_ods c wb); b01 (ods_legal c wb) ]
+                        "-"; b01 (ods_legal c wb) ]
   | _ -> "bad-args"
 
 let run (args : string list) : string =
